@@ -48,6 +48,14 @@ class Ctx:
         self.work = os.path.join(VERIF, ".work", "%s_%d" % (prop, os.getpid()))
         shutil.rmtree(self.work, ignore_errors=True)
         os.makedirs(self.work, exist_ok=True)
+        # replay files of an earlier run of this property and tier are stale
+        import glob
+
+        for old in glob.glob(os.path.join(REPLAY_DIR, "%s_*_%s.json" % (prop, tier))):
+            try:
+                os.remove(old)
+            except OSError:
+                pass
         self.states = 0
         self.transitions = 0
         self.tlc_runs = []
